@@ -148,7 +148,7 @@ def handle (case obs : List String) : String × String :=
           else verdict [("no-panic", !obs.any isBad),
                    ("no-oversize-reservation", !obs.contains "a1"),
                    ("accepted-iff-within-limit", obsMsgs (beforeStatus obs) == within),
-                   ("oversized-refused-with-out-of-range", !over || st == some "e11:tooLargeDec")]
+                   ("oversized-refused-with-out-of-range", !over || st == some "e11:t")]
       | _ => "fail:bad-case"
     (m, v)
 end DriverC06
